@@ -98,7 +98,7 @@ fn gen_subs(rng: &mut Rng) -> Vec<(Option<String>, Option<String>)> {
 
 pub fn run(ctx: &Ctx) -> i32 {
     let mut report = ctx.report("C18", "exploration");
-    report.rule = "read_card against the simulated terminal: systematically every UID length 0..20 x every number of leading zero bytes x zero runs in front of the last 7/8 bytes; randomly UID absent / 0..20 bytes (all zero, zero-prefixed, three zero bytes in front of the last 14 digits, nibble patterns, random), application list (tag 60) absent/empty/1-5 entries with and without application ids, no TLV container at all, 0-5 intermediate statuses before the status information, all 256 abort codes; every card is presented twice in the same session, the second time with the irrelevant fields (track data, card type, ATS, SAK, tag-62 applications) changed. Oracle: reference classification of DESIGN 8/C18 (three-valued where the statement is silent); both presentations must give the same result. Non-trivial = every read; distinct by hash of the reported card data / abort code.".into();
+    report.rule = "read_card against the simulated terminal: systematically every UID length 0..20 x every number of leading zero bytes x zero runs in front of the last 7/8 bytes; randomly UID absent / 0..20 bytes (all zero, zero-prefixed, three zero bytes in front of the last 14 digits, nibble patterns, random), application list (tag 60) absent/empty/1-5 entries with and without application ids, no TLV container at all, 0-5 intermediate statuses before the status information, all 256 abort codes; the terminal's own time-out (abort 6C, or a card at the last moment) arriving read_card_timeout seconds + 0.1/0.9/1.5 s after the request for read_card_timeout in {0,1,15,100,253,254,255}; every card is presented twice in the same session, the second time with the irrelevant fields (track data, card type, ATS, SAK, tag-62 applications) changed. Oracle: reference classification of DESIGN 8/C18 (three-valued where the statement is silent); both presentations must give the same result. Non-trivial = every read; distinct by hash of the reported card data / abort code.".into();
     report.exhaustive = Some(false);
     report.assumptions = vec!["applications listed only under tag 62 are recorded, not judged (one of the repository's own captures is such a card)".into()];
     let schema = Arc::new(refcodec::zvt_schema());
@@ -148,6 +148,43 @@ pub fn run(ctx: &Ctx) -> i32 {
         }
         for _ in 0..n / threads {
             card_case(r, &mut rng, &schema);
+        }
+        // the terminal's own read-card time-out: it stays silent for read_card_timeout seconds (plus a little, still
+        // inside the client's grace) and then reports 'abort 6C' or, for a card presented at the last moment, the card
+        for (k, rc) in [0u8, 1, 15, 100, 253, 254, 255].iter().enumerate() {
+            if k % threads != shard % threads {
+                continue;
+            }
+            for extra_ms in [100u64, 900, 1500] {
+                for late_card in [false, true] {
+                    let mut sc = Scenario::default();
+                    sc.cfg.read_card_timeout = *rc;
+                    sc.calls = vec![Call::ReadCard];
+                    let silent_ms = *rc as u64 * 1000 + extra_ms;
+                    let plan = if late_card {
+                        ExPlan { card: Some(CardData { uid: Some("04a1b2c3d4e5f6".into()), ..CardData::default() }), silent_ms, ..ExPlan::default() }
+                    } else {
+                        ExPlan { result: ExResult::Abort(0x6c), silent_ms, ..ExPlan::default() }
+                    };
+                    sc.plan.push(2, Cmd::ReadCard, plan);
+                    let tr = run_scenario(&sc, &schema);
+                    r.case(fnv(format!("late {rc} {extra_ms} {late_card}").as_bytes()), true);
+                    r.count("late_replies_within_the_grace_period", 1);
+                    let got = tr.calls.get(1).map(|c| c.result.clone());
+                    let ok = match (&got, late_card) {
+                        (Some(CallResult::Err { class: ErrClass::NoCardPresented, .. }), false) => true,
+                        (Some(CallResult::Ok(OkVal::Membership(m))), true) => m == "04A1B2C3D4E5F6",
+                        _ => false,
+                    };
+                    if !ok {
+                        r.violation(
+                            &if late_card { "C18: a card presented at the last moment is not reported".to_string() } else { "C18: terminal time-out (6C) is not reported as 'no card presented'".to_string() },
+                            &format!("read_card_timeout {rc}: the terminal answered {silent_ms} ms after the request ({}): {}", if late_card { "status information" } else { "abort 6C" }, got.map(|g| g.short()).unwrap_or_default()),
+                            case_json(&sc, &tr),
+                        );
+                    }
+                }
+            }
         }
     });
     report.finish()
